@@ -46,7 +46,8 @@ def engine_p(prop):
     jobs = []
     for q in quals:
         if C.get(q).fuel >= 5 or C.get(q).shards:
-            jobs += [(q, (k, SHARDS)) for k in range(SHARDS)]
+            n = max(SHARDS, C.get(q).shards or 0)
+            jobs += [(q, (k, n)) for k in range(n)]
         else:
             jobs.append((q, None))
     jobs.sort(key=lambda j: 0 if j[1] else 1)  # slow shards first
